@@ -442,6 +442,23 @@ func (s *MergeExp) coforkedCalls(v Exp,
 	return result
 }
 
+// forksOverCall returns true if the value of the expression depends on the
+// fork of the given call.
+func forksOverCall(exp Exp, call *CallStm) bool {
+	if exp == nil {
+		return false
+	}
+	if exp.HasSplit() {
+		return true
+	}
+	for _, ref := range exp.FindRefs() {
+		if _, ok := ref.Forks[call]; ok {
+			return true
+		}
+	}
+	return false
+}
+
 func (s *MergeExp) BindingPath(bindPath string,
 	fork map[*CallStm]CollectionIndex,
 	lookup *TypeLookup) (Exp, error) {
@@ -451,6 +468,13 @@ func (s *MergeExp) BindingPath(bindPath string,
 	v, err := s.Value.BindingPath(bindPath, fork, lookup)
 	if i := fork[s.GetCall()]; i != nil && i.IndexSource() == nil {
 		return v, s.wrapError(err)
+	}
+	if sp, ok := v.(*SplitExp); ok && err == nil && sp.Call == s.GetCall() &&
+		!forksOverCall(sp.Value, sp.Call) {
+		// Merging the elements of a collection which was split over the
+		// very same call gives back the collection (for example a mapped
+		// pipeline returning its split input).
+		return sp.Value, nil
 	}
 	src := s.MergeOver
 	if se, serr := sourceForFork(src, fork, lookup); serr != nil {
